@@ -27,7 +27,7 @@ git -C /repo worktree remove --force $WT
 echo "confirm: demo without=$W with=$X baseline_nonok_lines=$base"
 # detection
 git -C /repo apply "$DIR/patch.diff" || exit 4
-mkdir -p /tmp/seedverif_$$; cp /verif/known_findings.json /verif/anchors.json /tmp/seedverif_$$/
+mkdir -p /tmp/seedverif_$$; cp /verif/known_findings.json /verif/anchors.json /verif/fields.json /tmp/seedverif_$$/
 det=""
 for p in $(bin/ndndcheck -list); do
   out=$(bin/ndndcheck -prop $p -tier quick -repo /repo -verif /tmp/seedverif_$$ 2>&1)
